@@ -58,19 +58,17 @@ def classSize (k : Nat) : Nat :=
   | 2 => 48
   | _ => 80
 
-/-- Configuration guard.  `maxPages ≤ 16383` keeps `heap_ptr + 8 + size < 2^31` for every request
-`≤ 2^30`, which the code's signed comparison `i32.ge_s` in `$heap_new_allocation` needs
-(see `bump_wrap_witness` in Props/C10.lean for what happens above). -/
+/-- Configuration guard.  `maxPages ≤ 32767` keeps every address signed-positive (`heap_top ≤ 2^31 - 64K`),
+which the code's signed address comparisons need. -/
 def CfgWF (c : Config) : Prop :=
   0 < c.stackPtr ∧ c.stackPtr < c.heapBase ∧ c.heapBase % 8 = 0 ∧
-  c.heapBase + 48 < c.pages * 65536 ∧ c.pages ≤ c.maxPages ∧ c.maxPages ≤ 16383
+  c.heapBase + 48 < c.pages * 65536 ∧ c.pages ≤ c.maxPages ∧ c.maxPages ≤ 32767
 
 instance (c : Config) : Decidable (CfgWF c) := by unfold CfgWF; exact inferInstance
 
-/-- Operation guard: requests up to 2^30; `malloc(0)` with the fixed lists disabled is the known
-trigger of `malloc0_nofixed_witness` and excluded. (`free` of a non-live pointer is a no-op of the model.) -/
-def OpOK (c : Config) : Op → Prop
-  | .malloc req => req ≤ 1073741824 ∧ (c.cap = 0 → req ≠ 0)
+/-- Operation guard: requests up to 2^30. (`free` of a non-live pointer is a no-op of the model.) -/
+def OpOK (_c : Config) : Op → Prop
+  | .malloc req => req ≤ 1073741824
   | .free _ => True
 
 instance (c : Config) (op : Op) : Decidable (OpOK c op) := by
